@@ -1151,6 +1151,14 @@ def _sites(evs: List[Event], limit=6) -> List[str]:
 # R1  inventory
 # =====================================================================================================================
 
+def _reset_before_every_use(ctx, c: Container) -> bool:
+    """Every function that holds a state-observing use of c resets c, on every path, before its first observing use (callees that
+    observe it included): whatever an earlier call or compilation left in c is never seen - scratch state."""
+    an = ResetBeforeUse(ctx, c)
+    users = set(an.use_nodes)
+    return bool(users) and all(an.unsafe(g) is None for g in sorted(users, key=lambda g: g.qual))
+
+
 def r1_inventory(ctx, rid):
     md = model(ctx)
     repo = ctx.repo
@@ -1207,6 +1215,10 @@ def r1_inventory(ctx, rid):
         elif fx.reset_reachable:
             ctx.ok(rid, None, None, f"{key}: per-compilation state; reset by {', '.join(sorted({e.f.qualname for e in fx.reset_reachable}))}"
                    f", reachable from CircuitTemplate.clear" + ("" if fx.pin else " (not pinned: new container)"), facts, **kw)
+        elif fx.resets and _reset_before_every_use(ctx, c):
+            ctx.ok(rid, None, None, f"{key}: scratch state - in every function that observes it "
+                   f"({', '.join(sorted({e.f.qualname for e in fx.runtime if e.kind in OBSERVING}))}) a reset precedes the first observing use on "
+                   f"every path, so nothing written earlier is ever seen" + ("" if fx.pin else " (not pinned: new container)"), facts, **kw)
         else:
             how = {"module": "module-level", "class": "class-level", "default": "mutable default argument", "sys": "interpreter-level"}[c.kind]
             ctx.violation(rid, None, None, f"process-global mutable state `{key}` ({how}, "
@@ -2532,7 +2544,28 @@ class CacheCompletion:
         """`e` is a name that may still be the dict the caller passed in (a parameter, possibly defaulted to an empty dict)"""
         if not isinstance(e, ast.Name) or e.id not in f.params or e.id == f.self_name:
             return False
-        return any(isinstance(d, ast.arguments) for d in self.ctx.rd(f).defs_reaching(e))
+        rd = self.ctx.rd(f)
+
+        def may_be_param(x, depth=0):
+            if depth > 4:
+                return False
+            if isinstance(x, ast.Name):
+                if x.id != e.id:
+                    return False
+                for d in rd.defs_reaching(x):
+                    if isinstance(d, ast.arguments):
+                        return True
+                    v = d.value if isinstance(d, (ast.Assign, ast.AnnAssign)) and any(
+                        isinstance(t, ast.Name) and t.id == x.id for t in (d.targets if isinstance(d, ast.Assign) else [d.target])) else None
+                    if v is not None and may_be_param(v, depth + 1):
+                        return True                   # `values = values or {}`, `values = {} if values is None else values`
+                return False
+            if isinstance(x, ast.BoolOp):
+                return any(may_be_param(v, depth + 1) for v in x.values)
+            if isinstance(x, ast.IfExp):
+                return may_be_param(x.body, depth + 1) or may_be_param(x.orelse, depth + 1)
+            return False
+        return may_be_param(e)
 
     # -- classification of one fill
     @staticmethod
